@@ -2,7 +2,7 @@
    (through the GENERATED IDiff.diff_entry), membership in the five action lists, and the two
    properties that need no well-formedness of the workspace: C09_errors_reported, C09_no_delete. *)
 From Coq Require Import NArith List Bool Lia.
-From DvcData Require Import Base.Val Base.PyBase Gen.PyTypes Gen.IDiff Model.IdxCheckout.
+From DvcData Require Import Base.Val Base.PyBase Gen.PyTypes Gen.IDiff Gen.IdxCompare Model.IdxCheckout.
 Import ListNotations.
 Open Scope N_scope.
 
@@ -112,7 +112,7 @@ Definition fch (o : option node) (t : option tentry) : bool :=
   t_file t && if same_file o t then negb (Bool.eqb (o_exec o) (t_exec t)) else t_exec t.
 
 Ltac classify :=
-  intros; unfold change_actions;
+  intros; unfold change_actions, compare_change, compare_branch, gen_add_create, gen_add_delete, gen_add_file_create;
   repeat match goal with
          | o : option node |- _ => destruct o as [[? [|] ?| |]|]
          | t : option tentry |- _ => destruct t as [[[|] [?|]|[?|] [|]]|]
@@ -123,21 +123,52 @@ Ltac classify :=
              let E := fresh "E" in destruct (list_N_eqb b c) eqn:E; cbn; rewrite ?E; cbn
          end; try reflexivity.
 
+(* the actions of one key, in the order the generated branch emits them *)
+Definition oe_of (k : key) (o : option node) : ientry :=
+  match o with
+  | Some n => match old_entry k n with Some e => e | None => new_entry k (TDir None false) end
+  | None => new_entry k (TDir None false)
+  end.
+Definition ne_of (k : key) (t : option tentry) : ientry :=
+  match t with Some te => new_entry k te | None => new_entry k (TDir None false) end.
+Definition spec_actions (delete : bool) (k : key) (o : option node) (t : option tentry) (hn : bool) : list action :=
+  (if fd delete o t then [AFilesDelete (oe_of k o)] else [])
+  ++ (if dd delete o t hn then [ADirsDelete (oe_of k o)] else [])
+  ++ (if dc o t then [ADirsCreate (ne_of k t)] else [])
+  ++ (if fch o t then [AFilesChmod (ne_of k t)] else [])
+  ++ (if fc o t then [AFilesCreate (ne_of k t)] else []).
+
+(* one sweep through the GENERATED diff_entry and compare_branch *)
+Lemma change_actions_spec delete k o t hn :
+  change_actions false delete k o t hn = spec_actions delete k o t hn.
+Proof. classify. Qed.
+
+Ltac by_spec :=
+  intros; rewrite change_actions_spec; unfold spec_actions;
+  repeat match goal with
+         | o : option node |- _ => destruct o as [[? [|] ?| |]|]
+         | t : option tentry |- _ => destruct t as [[[|] [?|]|[?|] [|]]|]
+         | d : bool |- _ => destruct d
+         end; cbn;
+  repeat match goal with
+         | |- context [list_N_eqb ?b ?c] => destruct (list_N_eqb b c); cbn
+         end; reflexivity.
+
 Lemma files_delete_change delete k o t hn :
   files_delete (change_actions false delete k o t hn) = if fd delete o t then [k] else [].
-Proof. classify. Qed.
+Proof. by_spec. Qed.
 Lemma dirs_delete_change delete k o t hn :
   dirs_delete (change_actions false delete k o t hn) = if dd delete o t hn then [k] else [].
-Proof. classify. Qed.
+Proof. by_spec. Qed.
 Lemma files_create_change delete k o t hn :
   files_create (change_actions false delete k o t hn) = if fc o t then [(k, t_content t)] else [].
-Proof. classify. Qed.
+Proof. by_spec. Qed.
 Lemma dirs_create_change delete k o t hn :
   dirs_create (change_actions false delete k o t hn) = if dc o t then [k] else [].
-Proof. classify. Qed.
+Proof. by_spec. Qed.
 Lemma files_chmod_change delete k o t hn :
   files_chmod (change_actions false delete k o t hn) = if fch o t then [k] else [].
-Proof. classify. Qed.
+Proof. by_spec. Qed.
 
 (* ---- list plumbing ------------------------------------------------------------------------------ *)
 Lemma flat_map_flat_map {A B C} (f : A -> list B) (g : B -> list C) l :
